@@ -78,6 +78,25 @@ def session_matrix(groups=("Ed25519", "I1024", "toy11"), quick=True):
                     for ids in ((IDS if sd == SEEDS[0] else IDS[:2]) if gname != "Ed25519" else IDS[:2]):
                         plan.append((sd, side, pw, ids))
         x, y = 3 % q, 5 % q
+        if gname != "Ed25519":
+            # a session whose first entropy draw is rejected (candidate >= q), then sessions with ordinary entropy
+            nb = (q.bit_length() + 7) // 8
+            calls = []
+
+            def rej_entropy(n):
+                # like os.urandom: exactly n bytes per request. 1st request: all ones (rejected); afterwards the bytes
+                # of scalar 7 followed by filler (matters only to code that asks for more than one draw at a time)
+                calls.append(n)
+                if len(calls) == 1:
+                    return b"\xff" * n
+                return ((7 % q).to_bytes(nb, "big") + bytes(range(1, 256)) * 8)[:n]
+            rej = K["A"](b"pw", params=pobj[SEEDS[0]], entropy_f=rej_entropy)
+            try:
+                m0 = rej.start()
+            except Exception as ex:
+                return "start() raised %r for an entropy stream whose first draw must be rejected (%s)" % (ex, gname)
+            if m0 != R.spake2_message(rg, "A", b"pw", 7 % q, SEEDS[0]):
+                return "after a rejected first draw start() on %s does not use the second draw as its scalar" % gname
         for order in (plan, list(reversed(plan))):
             for (sd, side, pw, ids) in order:
                 params = pobj[sd]
@@ -143,4 +162,13 @@ def finalize_matrix():
             lo, hi = sorted([m1, m2])
             if got != h(h(pw) + h(ids[:1]) + lo + hi + kk):
                 return "finalize_SPAKE2_symmetric(%r, %r, %r, %r, %r) differs from the definition" % (ids[:1], m1, m2, kk, pw)
+    # messages of different lengths, prefixes of one another, leading zero bytes: bytewise order, and symmetry
+    for (m1, m2) in [(b"\x01\x00", b"\x02"), (b"ab", b"b"), (b"", b"\x00"), (b"\x00\x01", b"\x01"), (b"abc", b"ab"),
+                     (b"\xff", b"\x00\xff\xff"), (b"\x80", b"\x7f\xff"), (b"a", b"a")]:
+        lo, hi = sorted([m1, m2])
+        want = h(h(b"pw") + h(b"i") + lo + hi + b"K")
+        for (a_, b_) in ((m1, m2), (m2, m1)):
+            got = S.finalize_SPAKE2_symmetric(b"i", a_, b_, b"K", b"pw")
+            if got != want:
+                return "finalize_SPAKE2_symmetric(b'i', %r, %r, b'K', b'pw') is not SHA256(SHA256(pw)||SHA256(idS)||min||max||K) with bytewise order" % (a_, b_)
     return None
